@@ -68,7 +68,7 @@ Theorem c10_setup : forall d g j, wfb d = true ->
     (fun _ _ _ _ => False).
 Proof.
   intros d g j Hwf. destruct_cfg d. wf_facts Hwf. destruct g as [g0 g1 g2].
-  cbv delta [Config_setup_self_test]; cbv beta. sx. subst_eqs. cbn.
+  cbv delta [Config_setup_self_test]; cbv beta. timeout 300 (sx; subst_eqs; cbn).
   eexists. rewrite <- !app_assoc. split; [reflexivity|]. cbn [map jw_addr jw_val app]. eval_shv.
   repeat split; try reflexivity; try (clear_unused; finite_reflect).
 Qed.
@@ -82,7 +82,7 @@ Theorem c10_cleanup : forall saved d g j,
     (fun _ _ _ _ => False).
 Proof.
   intros saved d g j. destruct_cfg d. destruct g as [g0 g1 g2].
-  cbv delta [Config_cleanup_self_test]; cbv beta. sx. cbn.
+  cbv delta [Config_cleanup_self_test]; cbv beta. timeout 300 (sx; cbn).
   eexists. rewrite <- !app_assoc. split; [reflexivity|]. cbn [map jw_addr jw_val app].
   destruct saved as [[a0 a1 a2] [i0 i1] [p0 p1 p2 p3] [f0 f1 f2 f3] [l0 l1] [w0 w1] [k0 k1 k2 k3 k4] [o0 o1 o3 o4 o5 o6 o7 o8 o9]
                       [x0 x1 x2 x3 x31 x4 x5 x6 x7 x8 x9] [y0 y1 y2 y3 y31 y4 y5 y6 y7 y8 y9] [c0 c1] [t0 t1]].
@@ -107,7 +107,7 @@ Theorem c10_restores_shadow : forall d, ov d = true ->
   wpx BMA400_perform_self_test d (fun _ d' => d' = d) (fun _ d' => d' = d).
 Proof.
   intros d H0. wx_start d H0. cbv delta [BMA400_perform_self_test]; cbv beta.
-  wx. all: subst_eqs; unfold_cfg_fns; cbv_records; reflexivity.
+  timeout 300 wx. all: timeout 60 (subst_eqs; unfold_cfg_fns; cbv_records; reflexivity).
 Qed.
 
 Lemma self_test_preserves : preserves BMA400_perform_self_test.
